@@ -15,6 +15,7 @@ import (
 
 	"crypto/aes"
 	"crypto/cipher"
+	"crypto/rand"
 
 	"github.com/DOSNetwork/core/sign/bls"
 	"github.com/DOSNetwork/core/suites"
@@ -53,6 +54,8 @@ type client struct {
 	remotePubKey kyber.Point
 	dhKey        []byte
 	dhNonce      []byte
+	// the request nonces of this connection count up from here
+	nonceBase uint64
 }
 
 func newClient(localID []byte, conn net.Conn, peerFeed chan P2PMessage, inBound bool) (c *client) {
@@ -77,6 +80,12 @@ func newClient(localID []byte, conn net.Conn, peerFeed chan P2PMessage, inBound 
 	c.ctx, c.cancel = context.WithCancel(context.Background())
 	c.peerSend = make(chan p2pRequest, 21)
 	c.peerFeed = peerFeed
+	// A reply is matched to its request by the nonce alone, on the connection it arrives on, while
+	// the replying side picks the connection by peer id at the time it replies. With every
+	// connection counting from 0, the reply to a request of an EARLIER connection to the same peer
+	// (cut, or one side restarted) written to the current one was handed to the request that
+	// carries the same nonce there. Start each connection's nonces at a random value.
+	binary.Read(rand.Reader, binary.BigEndian, &c.nonceBase)
 	//TODO : Move to other module
 	c.suite = suites.MustFind("bn256")
 	c.localSecKey = c.suite.Scalar().Pick(c.suite.RandomStream())
@@ -314,7 +323,7 @@ func (c *client) decryptPipe(ciphertext chan []byte) (out chan []byte) {
 func (c *client) dispatch(replyMsg, receivedMsg chan P2PMessage) (out chan p2pRequest) {
 	out = make(chan p2pRequest)
 	requests := make(map[uint64]*p2pRequest)
-	var nonce uint64
+	nonce := c.nonceBase
 	idleTimer := time.NewTimer(idleTimeout)
 	var readTimer bool
 	go func() {
